@@ -380,7 +380,8 @@ func (p *c09) Run(payload any) mon.Result {
 	type span struct{ lo, hi syntax.Pos }
 	var stack []syntax.Node
 	ok := true
-	syntax.Walk(f, func(n syntax.Node) bool {
+	// nodes are enumerated by reflection (oracle independent of syntax.Walk)
+	reflectWalk(f, func(n syntax.Node) bool {
 		if !ok {
 			return false
 		}
@@ -434,7 +435,7 @@ func (p *c09) Run(payload any) mon.Result {
 		if l, isLit := n.(*syntax.Lit); isLit && !inBody && !nul && !cr && !escnl && !bq && l.ValuePos.IsValid() && l.ValueEnd.IsValid() {
 			lo, hi := int(l.ValuePos.Offset()), int(l.ValueEnd.Offset())
 			if lo <= hi && hi <= len(src) {
-				if _, hd := parent.(*syntax.Word); hd || parent == nil {
+				{
 					if string(src[lo:hi]) != l.Value {
 						// here-doc bodies with <<- have their tabs stripped from the value
 						if strings.ReplaceAll(string(src[lo:hi]), "\t", "") != strings.ReplaceAll(l.Value, "\t", "") {
@@ -533,4 +534,65 @@ func (p *c09) knownSkew(src []byte, off, line, col, wantLine, wantCol int, lineS
 		return false
 	}
 	return bytes.Contains(src[lineStart[line-1]:off], []byte("\\\n"))
+}
+
+// reflectWalk calls fn for every node reachable through exported fields, in
+// depth-first order, and fn(nil) after each node's children, like syntax.Walk
+// but without relying on it. Returning false prunes.
+func reflectWalk(root syntax.Node, fn func(syntax.Node) bool) {
+	var visitValue func(v reflect.Value)
+	var visitNode func(n syntax.Node)
+	visitNode = func(n syntax.Node) {
+		if !fn(n) {
+			return
+		}
+		v := reflect.ValueOf(n)
+		if v.Kind() == reflect.Pointer {
+			v = v.Elem()
+		}
+		if v.Kind() == reflect.Struct {
+			for i := 0; i < v.NumField(); i++ {
+				if v.Type().Field(i).IsExported() {
+					visitValue(v.Field(i))
+				}
+			}
+		}
+		fn(nil)
+	}
+	visitValue = func(v reflect.Value) {
+		switch v.Kind() {
+		case reflect.Interface:
+			if !v.IsNil() {
+				if n, ok := v.Interface().(syntax.Node); ok {
+					visitNode(n)
+				}
+			}
+		case reflect.Pointer:
+			if v.IsNil() {
+				return
+			}
+			if n, ok := v.Interface().(syntax.Node); ok {
+				visitNode(n)
+				return
+			}
+			if v.Elem().Kind() == reflect.Struct && v.Elem().Type() != posType0 {
+				for i := 0; i < v.Elem().NumField(); i++ {
+					if v.Elem().Type().Field(i).IsExported() {
+						visitValue(v.Elem().Field(i))
+					}
+				}
+			}
+		case reflect.Slice:
+			for i := 0; i < v.Len(); i++ {
+				e := v.Index(i)
+				if e.Kind() == reflect.Struct && e.Type() == reflect.TypeOf(syntax.Comment{}) {
+					c := e.Interface().(syntax.Comment)
+					visitNode(&c)
+					continue
+				}
+				visitValue(e)
+			}
+		}
+	}
+	visitNode(root)
 }
